@@ -166,8 +166,12 @@ def run(ctx):
     for (L, Wk) in ps:
         sel = fam.select(pool, 30 if ctx.quick else None, ctx.seed + 21, L + Wk) + SPECIAL
         psel = fam.select(props, 60 if ctx.quick else None, ctx.seed + 22, L + Wk)
+        # compound premise next to a literal deciding one operand; depth-1 premise/conclusion pairs
+        psel += fam.select(fam.side_premise(), 60 if ctx.quick else None, ctx.seed + 24, L + Wk)
+        psel += fam.select(fam.depth1_pairs(), 60 if ctx.quick else None, ctx.seed + 25, L + Wk)
         if not ctx.quick:
             psel += fam.select(fam.prop(2), 1500, ctx.seed + 23, L + Wk)
+        psel = list(dict.fromkeys(psel))
         units.append((L, Wk, sel, psel, ctx.seed))
     with mp.Pool(ctx.jobs) as pool_:
         ar = pool_.map_async(run_unit, units, chunksize=1)
@@ -210,7 +214,7 @@ def run(ctx):
         declared_pairs=len(ps), lemma_pairs_discharged=lemma_ok, prover_runs=runs,
         arguments_valid_in_weaker=vw,
         bounds=dict(value_sets='size <= 3 for generalised connectives', worlds=3,
-                    arguments='30 family + 7 fixed + 60 propositional per pair' if ctx.quick else 'all family + P(0..1) + 1500 of P(2)'),
+                    arguments='30 family + 7 fixed + 60 of P(0..1) + 60 side-premise + 60 depth-1 pairs per pair (by seed)' if ctx.quick else 'all family + P(0..1) + side-premise (144) + depth-1 pairs + 1500 of P(2)'),
         solver=stats.asdict(),
         functions_executed=['Meta.extension_of (registry)', 'Model.truth_function (extracted tables)',
                             'Tableau.build in both logics of each pair'],
